@@ -10,7 +10,7 @@ use blsful::vsss_rs::Share;
 use blsful::*;
 use serde_json::{json, Value};
 
-pub const RULE: &str = "enumeration of entry point x argument position (identity substituted alone and together with an otherwise honest remainder; where an all-identity combination satisfies the pairing equation trivially that combination is constructed explicitly) x scheme x group x message: Signature::verify, AggregateSignature::verify (n in {1,2,3,8[,64]}: identity key at EVERY position with the aggregate recomputed over the remaining honest pairs so that only the guard can reject; aggregate that is itself the identity from signers k and -k), MultiSignature::verify (accumulated key pk+(-pk) with the matching identity multi-signature), ProofOfPossession::verify, ProofOfKnowledge::verify and ProofOfKnowledgeTimestamp::verify (u, v, pk, y=0 incl. the algebraically satisfying forgeries), ProofCommitment::finalize (u, sig, x=0, y=0), SignCryptCiphertext::is_valid/decrypt, SignDecryptionShare::verify, TimeCryptCiphertext::decrypt (incl. a ciphertext crafted to open under the identity signature), ElGamalProof::verify/verify_and_decrypt (c1, c2, pk, each scalar = 0, sk = 0); zero scalar through every byte importer and every signing entry point; identity recipient for the Result-returning encryptions. Oracle: must not succeed; positive twin (honest value restored -> same call succeeds) in the same run, a case whose twin fails is vacuous and not counted. Distinct by (suite, entry, position, scheme, inputs).";
+pub const RULE: &str = "enumeration of entry point x argument position (identity substituted alone and together with an otherwise honest remainder; where an all-identity combination satisfies the pairing equation trivially that combination is constructed explicitly) x scheme x group x message: Signature::verify, AggregateSignature::verify (n in {1,2,3,8[,64]}: identity key at EVERY position with the aggregate recomputed over the remaining honest pairs so that only the guard can reject; aggregate that is itself the identity from signers k and -k), MultiSignature::verify (accumulated key pk+(-pk) with the matching identity multi-signature), ProofOfPossession::verify, ProofOfKnowledge::verify and ProofOfKnowledgeTimestamp::verify (u, v, pk, y=0 incl. the algebraically satisfying forgeries), ProofCommitment::finalize (u, sig, x=0, y=0), SignCryptCiphertext::is_valid/decrypt, SignDecryptionShare::verify, TimeCryptCiphertext::decrypt (incl. a ciphertext crafted to open under the identity signature), ElGamalProof::verify/verify_and_decrypt (c1, c2, pk, each scalar = 0, sk = 0); zero scalar through every byte importer and every signing entry point; identity recipient for the Result-returning encryptions. Oracle: must not succeed; positive twin (honest value restored -> same call succeeds) in the same run, a case whose twin fails is vacuous and not counted. History clusters (2 quick / 8 thorough per group): the honest questions and the same questions with the identity substituted (signatures of every scheme, two-signer aggregates with an identity-key pair added, multi-signatures, proof of possession) in every ordered pair (a,b) as a,b,b,a. Distinct by (suite, entry, position, scheme, inputs).";
 
 pub fn run(ctx: &mut Ctx) {
     for_both!(run_suite, ctx);
@@ -69,6 +69,14 @@ fn run_suite<C: Suite>(ctx: &mut Ctx) {
     ];
     for r in req {
         ctx.require(&format!("{n}/{r}"));
+    }
+    // history clusters: identity-carrying questions next to their honest twins
+    ctx.require(&format!("{n}/history"));
+    for i in 0..ctx.tier.pick(2, 8) {
+        g += 1;
+        if ctx.mine(g) {
+            history_cluster::<C>(ctx, g, i);
+        }
     }
 
     for rep in 0..reps {
@@ -488,4 +496,67 @@ fn run_suite<C: Suite>(ctx: &mut Ctx) {
             }
         }
     }
+}
+
+/// The honest questions (accepted) and the same questions with the identity substituted (never
+/// accepted) for signatures of every scheme, the proof of possession, multi-signatures and
+/// two-signer aggregates, asked in every ordered pair as a, b, b, a: an identity must not be let
+/// through because an honest value has just been accepted, nor an honest value refused because an
+/// identity has just been rejected.
+fn history_cluster<C: Suite>(ctx: &mut Ctx, g: u64, i: usize) {
+    use super::history::{q, sandwiches, Q};
+    let mut rng = ctx.rng(g);
+    let n = C::NAME;
+    let k = gen::random_scalar(&mut rng);
+    let sk = sk_from_rs::<C>(&k);
+    let pk = sk.public_key();
+    let sk2 = sk_from_rs::<C>(&gen::random_scalar(&mut rng));
+    let pk2 = sk2.public_key();
+    let msg = gen::message([32usize, 0, 7, 100][i % 4], Content::Random, &mut rng);
+    let mut msg2 = msg.clone();
+    msg2.push(2);
+    let o_pk = PublicKey::<C>(pk_id::<C>());
+    type A = Option<Vec<u8>>;
+    let verdict = |b: bool| -> A { Some(vec![b as u8]) };
+    let mut qs: Vec<Q<A>> = Vec::new();
+    let (msgr, msg2r) = (&msg, &msg2);
+    for s1 in SCHEMES {
+        let Ok(sig) = sk.sign(lscheme(s1), &msg) else { return };
+        let o_sig = wrap_sig::<C>(s1, sig_id::<C>());
+        let sn = s1.name();
+        qs.push(q(format!("verify/{sn}/honest"), verdict(true), move || verdict(sig.verify(&pk, msgr).is_ok())));
+        qs.push(q(format!("verify/{sn}/pk=O,sig=O"), verdict(false), move || verdict(o_sig.verify(&o_pk, msgr).is_ok())));
+        qs.push(q(format!("verify/{sn}/pk=O"), verdict(false), move || verdict(sig.verify(&o_pk, msgr).is_ok())));
+        qs.push(q(format!("verify/{sn}/sig=O"), verdict(false), move || verdict(o_sig.verify(&pk, msgr).is_ok())));
+        // two-signer aggregate; the same with an identity-key pair added (pairing product unchanged)
+        let Ok(sig2) = sk2.sign(lscheme(s1), &msg2) else { return };
+        let Ok(agg) = AggregateSignature::<C>::from_signatures([sig, sig2]) else { return };
+        let honest = vec![(pk, msg.clone()), (pk2, msg2.clone())];
+        let mut with_o = honest.clone();
+        with_o.push((o_pk, b"identity pair".to_vec()));
+        let mut with_o_same = honest.clone();
+        with_o_same.insert(0, (o_pk, msg2r.clone()));
+        qs.push(q(format!("aggregate/{sn}/honest"), verdict(true), move || verdict(agg.verify(&honest).is_ok())));
+        qs.push(q(format!("aggregate/{sn}/identity-pair-added"), verdict(false), move || verdict(agg.verify(&with_o).is_ok())));
+        qs.push(q(format!("aggregate/{sn}/identity-pair-with-repeated-message"), verdict(false), move || verdict(agg.verify(&with_o_same).is_ok())));
+        if s1 != Scheme::Aug {
+            let Ok(sig2m) = sk2.sign(lscheme(s1), &msg) else { return };
+            let Ok(ms) = MultiSignature::<C>::from_signatures([sig, sig2m]) else { return };
+            let mpk = MultiPublicKey::<C>::from_public_keys([pk, pk2]);
+            let o_ms = wrap_multi::<C>(s1, sig_id::<C>());
+            let o_mpk = MultiPublicKey::<C>(pk_id::<C>());
+            qs.push(q(format!("multi/{sn}/honest"), verdict(true), move || verdict(ms.verify(mpk, msgr).is_ok())));
+            qs.push(q(format!("multi/{sn}/mpk=O,msig=O"), verdict(false), move || verdict(o_ms.verify(o_mpk, msgr).is_ok())));
+            qs.push(q(format!("multi/{sn}/mpk=O"), verdict(false), move || verdict(ms.verify(o_mpk, msgr).is_ok())));
+        }
+    }
+    let Ok(pop) = sk.proof_of_possession() else { return };
+    let o_pop = ProofOfPossession::<C>(sig_id::<C>());
+    qs.push(q("pop/honest".to_string(), verdict(true), move || verdict(pop.verify(pk).is_ok())));
+    qs.push(q("pop/pk=O,proof=O".to_string(), verdict(false), move || verdict(o_pop.verify(o_pk).is_ok())));
+    qs.push(q("pop/pk=O".to_string(), verdict(false), move || verdict(pop.verify(o_pk).is_ok())));
+    let d = || json!({"suite":n,"sk":hex::encode(k.to_be_bytes()),"msg":crate::hx(&msg),"note":"verdicts answer [1]/[0]"});
+    let mut cid = k.to_be_bytes().to_vec();
+    cid.extend_from_slice(&msg);
+    sandwiches(ctx, "C04", &format!("{n}/history"), "identity-next-to-honest", &cid, &d, &qs);
 }
